@@ -27,6 +27,7 @@ var (
 	vSumList  = regexp.MustCompile(`(?m)^› (\d+) snapshot (files?|tests?) (obsolete|removed)$`)
 	vSumItem  = regexp.MustCompile(`(?m)^  ↳\s+•\s(.*)$`)
 	vAnsi     = regexp.MustCompile("\x1b\\[[0-9;]*m")
+	vItemTest = regexp.MustCompile(`^.+ - [0-9]+$`)
 )
 
 func vCaptureStdout(f func()) string {
@@ -141,6 +142,18 @@ func init() {
 		}
 		if printed == "0" && strings.TrimSpace(out) != "" {
 			layout = "0"
+		}
+		// ... and is every listed item of the shape this harness takes it for? a test item is `<name> - <ordinal>` and nothing
+		// else, a file item is a path under the sandbox
+		for _, it := range tests {
+			if !vItemTest.MatchString(it) {
+				layout = "0"
+			}
+		}
+		for _, it := range files {
+			if !strings.HasPrefix(it, vRoot+"/") || strings.ContainsAny(it, " \t") && !strings.Contains(it, "/") {
+				layout = "0"
+			}
 		}
 		fmt.Fprintf(r.w, "clean %d layout=%s ofiles=%s otests=%s writes=%s printed=%s passed=%s failed=%s added=%s updated=%s skipped=%s removed=%s\n",
 			r.idx, layout, vHexList(files, r.sb.virt), vHexList(tests, func(s string) string { return s }),
